@@ -101,6 +101,9 @@ def gen_cases(fmt, tier):
             w = WINDOWS[n % len(WINDOWS)]
             cases.append(mk(fmt, base_r, base_p, a, b, c, w[0], w[1], idx, code0, None))
             n += 1
+    # numbers that fill their columns to the limit (Leeds a8/b9/c10, KIDA 10.3e with sign)
+    for a, b, c in ((1.23e-10, -1234.567, 12345678.9), (-1.234e-10, 1234.5678, -2345678.9), (9.99e+22, -0.5, 1234567.8)):
+        cases.append(mk(fmt, base_r, base_p, a, b, c, 10, 300, 99999, code0, None))
     for w in WINDOWS + (WINDOWS_REAL if fmt in ("umist", "uclchem", "naunet", "krome") else []):
         cases.append(mk(fmt, base_r, base_p, 1e-10, 0.0, 0.0, w[0], w[1], 7, code0, None))
     return [c for c in cases if c is not None]
